@@ -25,7 +25,7 @@ def register(S):
         term = ("call", name) + tuple(terms) if all(t is not None for t in terms) else None
         lo = hi = None
         a0 = args[0] if args else None
-        if name in ("floor", "ceil", "round", "trunc") and isinstance(a0, FloatVal) and a0.lo is not None:
+        if name in ("floor", "ceil", "round", "trunc") and isinstance(a0, FloatVal) and a0.lo is not None and a0.hi is not None:
             lo, hi = a0.lo - 1, a0.hi + 1
         if name in ("sin", "cos"):
             lo, hi = -1.0, 1.0
@@ -97,7 +97,7 @@ def register(S):
                                 break
                         if fn is not None and not fn["path"].endswith("as core::fmt::Debug>::fmt"):
                             todo.append((fn, ref))
-                elif isinstance(target, Choice):
+                elif isinstance(target, Choice) and any(isinstance(x, AdtVal) and x.kind == "adt" and x.path in ip.prog.adts for _d, x in target.alts):
                     raise NeedSplit(ref.loc if isinstance(ref, RefVal) else None)
         return todo
 
@@ -105,8 +105,20 @@ def register(S):
         ip, st = ctx.ip, ctx.st
         fargs = ctx.args[fargs_idx]
         todo = invoke_fmt_args(ctx, fargs, None)
-        ip.event(st, "write_fmt", fn=ctx.fr.fn["path"], span=ctx.call.get("span"),
-                 args=tuple((a.get("trait"), a.get("ty")) for a in fargs.get("args")) if isinstance(fargs, Opaque) and fargs.kind == "fmtargs" else ())
+        vals = []
+        if isinstance(fargs, Opaque) and fargs.kind == "fmtargs":
+            for a in fargs.get("args"):
+                v = a.get("val")
+                hops = 0
+                while isinstance(v, RefVal) and hops < 4:
+                    try:
+                        v = ip.read_loc(st, v.loc)
+                    except Exception:
+                        break
+                    hops += 1
+                vals.append((a.get("trait"), a.get("ty"), v))
+        ip.event(st, "write_fmt", fn=ctx.fr.fn["path"], span=ctx.call.get("span"), aspan=fargs.get("span") if isinstance(fargs, Opaque) and fargs.kind == "fmtargs" else None,
+                 args=tuple(vals), depth=len(st.frames))
         dest, target = ctx.dest, ctx.target
         rty = ctx.ret_ty()
 
@@ -123,14 +135,24 @@ def register(S):
                 return finish(ip2, st2)
             fn, ref = todo[i]
             fmtr = fmt_ref if fmt_ref is not None else RefVal(st2.new_heap(Opaque.make("formatter")), True)
-
-            def after(ip3, st3, rv):
-                # an Err from a nested fmt propagates as Err of this write
-                if isinstance(rv, AdtVal) and rv.path == RESULT and rv.variant == 1:
-                    return ip3.finish_call(st3, dest, target, err(AdtVal(FMT_ERR, 0, [])))
-                return run(ip3, st3, i + 1)
-            ip2.call_fn(st2, fn, [ref, fmtr], on_return=after)
-            return None
+            outs = []
+            for s3, rv in ip2.run_nested(st2, fn, [ref, fmtr]):
+                if s3.status != "run" or rv is None:
+                    outs.append(s3)
+                    continue
+                alts = rv.alts if isinstance(rv, Choice) else [((), rv)]
+                isok = [not (isinstance(x, AdtVal) and x.path == RESULT and x.variant == 1) for _d, x in alts]
+                if not any(isok):
+                    ip2.finish_call(s3, dest, target, err(AdtVal(FMT_ERR, 0, [])))
+                    outs.append(s3)
+                    continue
+                if not all(isok):
+                    s4 = s3.copy()
+                    ip2.finish_call(s4, dest, target, err(AdtVal(FMT_ERR, 0, [])))
+                    outs.append(s4)
+                r = run(ip2, s3, i + 1)
+                outs.extend([s3] if r is None else r)
+            return outs
         return run(ip, st, 0)
 
     @S.on("core::fmt::Formatter::<'a>::write_fmt")
@@ -152,15 +174,34 @@ def register(S):
         todo = invoke_fmt_args(ctx, fargs, None)
         ip.event(st, "format", fn=ctx.fr.fn["path"], span=ctx.call.get("span"))
         dest, target = ctx.dest, ctx.target
-        res = Opaque.make("string", elems=None, n=IntVal(USIZE, 0, 1 << 40), summary=IntVal.top(IntTy(32, False, "char")))
+        srcvals = []
+        if isinstance(fargs, Opaque) and fargs.kind == "fmtargs":
+            for a in fargs.get("args"):
+                v = a.get("val")
+                hops = 0
+                while isinstance(v, RefVal) and hops < 4:
+                    try:
+                        v = ip.read_loc(st, v.loc)
+                    except Exception:
+                        break
+                    hops += 1
+                srcvals.append(v)
+        res = Opaque.make("string", elems=None, n=IntVal(USIZE, 0, 1 << 40), summary=IntVal.top(IntTy(32, False, "char")), src=tuple(srcvals),
+                          site=(ctx.call.get("span") or {}).get("cs_lo") or (ctx.call.get("span") or {}).get("lo"))
 
         def run(ip2, st2, i):
             if i >= len(todo):
                 return ip2.finish_call(st2, dest, target, res)
             fn, ref = todo[i]
             fmtr = RefVal(st2.new_heap(Opaque.make("formatter")), True)
-            ip2.call_fn(st2, fn, [ref, fmtr], on_return=lambda ip3, st3, rv: run(ip3, st3, i + 1))
-            return None
+            outs = []
+            for s3, rv in ip2.run_nested(st2, fn, [ref, fmtr]):
+                if s3.status != "run":
+                    outs.append(s3)
+                    continue
+                r = run(ip2, s3, i + 1)
+                outs.extend([s3] if r is None else r)
+            return outs
         return run(ip, st, 0)
 
     @S.pat(r"^<T as alloc::string::(ToString|SpecToString)>::(to_string|spec_to_string)$|^<str as alloc::string::(SpecToString|ToString)>::")
